@@ -1,3 +1,4 @@
+pub mod combinators;
 pub mod filter;
 pub mod outline;
 pub mod retryopts;
